@@ -547,16 +547,17 @@ class MetaMessage(BaseMessage):
         if msg_bytes[0] != 0xff:
             raise ValueError('bytes does not correspond to a MetaMessage.')
         scan_end = 2
-        data = []
-        flag = True
-        while flag and scan_end < len(msg_bytes):
+        length = 0
+        while True:
+            if scan_end >= len(msg_bytes):
+                raise ValueError('Bad data. Cannot be converted to message.')
+            byte = msg_bytes[scan_end]
             scan_end += 1
-            length_data = msg_bytes[2:scan_end]
-            length = decode_variable_int(length_data)
-            data = msg_bytes[scan_end:]
-            if length == len(data):
-                flag = False
-        if flag:
+            length = (length << 7) | (byte & 0x7f)
+            if byte < 0x80:
+                break
+        data = msg_bytes[scan_end:]
+        if length != len(data):
             raise ValueError('Bad data. Cannot be converted to message.')
         msg = build_meta_message(msg_bytes[1], data)
         return msg
